@@ -614,6 +614,83 @@ theorem answerOf_failed (F : Facts) (fmt : Print.Format) (single : Bool) (t : Tr
           · exact hp h
           · exact hs h
 
+/-- **where the first invalid line stands** (non-aggregate statements): with the lines of all files being
+`A ++ invalid :: rest` and `files'` holding exactly the lines `A`, the run over `files` lacks a fact (about a later
+line), or is the run over `files'` (which had ended already), or is the run over `files'` — not failed — with
+`FailReadFile` as its error, the same print calls and the same count -/
+theorem runStatement_read_error (F : Facts) (tables : List Table) (q : SelectStmt) (fromTable : String)
+    (join : Option LJoin) (files files' : List (List Nat)) (rest : List (Except Unit (List Nat)))
+    (hsplit : files.flatMap lines = files'.flatMap lines ++ .error () :: rest) :
+    runStatement F tables (.select q) fromTable join files = none ∨
+    runStatement F tables (.select q) fromTable join files = runStatement F tables (.select q) fromTable join files' ∨
+    ∃ t, runStatement F tables (.select q) fromTable join files' = some t ∧ hasFailed t.out = false ∧
+      runStatement F tables (.select q) fromTable join files =
+        some { out := { t.out with error := some .failReadFile }, calls := t.calls } := by
+  cases hg : getTable tables fromTable with
+  | none =>
+    unfold runStatement
+    rw [hg]
+    cases join with
+    | some j => right; left; rfl
+    | none =>
+      simp only
+      unfold runNoTable
+      simp only [hsplit]
+      split
+      · right; left; rfl
+      · rename_i hrl
+        cases hA : files'.flatMap lines with
+        | nil =>
+          right; right
+          simp only [List.nil_append, List.head?_cons, List.head?_nil]
+          refine ⟨_, rfl, ?_, ?_⟩
+          · simp only [runBatchT, joinSetup, runWithIndexT, runFilesT, hasFailed]
+            rfl
+          · simp only [runBatchT, joinSetup, runWithIndexT, runFilesT, hasFailed]
+            rfl
+        | cons x xs => right; left; simp only [List.cons_append, List.head?_cons]
+  | some tb =>
+    rw [runStatement_defined F tables _ fromTable join files tb hg, runStatement_defined F tables _ fromTable join files' tb hg,
+      mapM_fileLines, mapM_fileLines]
+    by_cases hc : filesCovered F tb.defn files = true
+    · have hc' : filesCovered F tb.defn files' = true := by
+        rw [filesCovered_flatMap] at hc ⊢
+        rw [hsplit, List.all_append] at hc
+        simp only [Bool.and_eq_true] at hc
+        exact hc.1
+      simp only [hc, hc', if_true, Option.bind]
+      rcases runDefined_shape F tables (.select q) tb join with hn | ⟨qy, idxO, hq, hs⟩
+      · right; left; rw [hn, hn]
+      · rw [hs, hs]
+        have hflat : (files.map (fileOf (extractedLine F tb.defn))).flatten =
+            (files'.map (fileOf (extractedLine F tb.defn))).flatten ++
+              toFileLine (extractedLine F tb.defn) (.error ()) :: rest.map (toFileLine (extractedLine F tb.defn)) := by
+          rw [fileOf_flatten, fileOf_flatten, hsplit, List.map_append, List.map_cons]
+        rcases runWithIndexT_read_error F.eval qy q hq idxO _ _ _ _ rfl hflat with h | ⟨h1, h2⟩
+        · right; left; rw [h]
+        · right; right
+          exact ⟨_, rfl, h1, by rw [h2]⟩
+    · left
+      simp only [hc, Bool.false_eq_true, if_false, Option.bind]
+
+/-- the answer of a run that did not fail, and of the same run with `FailReadFile` as its error: the same answer when
+it is not a run's (a REAL rendering is missing), else the same count and the same printed lines under the two statuses -/
+theorem answerOf_read_error (F : Facts) (fmt : Print.Format) (single : Bool) (t : TraceOut) (h : hasFailed t.out = false) :
+    answerOf F fmt single { out := { t.out with error := some .failReadFile }, calls := t.calls } = answerOf F fmt single t ∨
+    ∃ n ls, answerOf F fmt single t = .records none n ls ∧
+      answerOf F fmt single { out := { t.out with error := some .failReadFile }, calls := t.calls } =
+        .records (some .failReadFile) n ls := by
+  simp only [hasFailed, Bool.or_eq_false_iff] at h
+  obtain ⟨⟨he, hp⟩, hs⟩ := h
+  have he' : t.out.error = none := by cases hx : t.out.error <;> simp [hx] at he ⊢
+  unfold answerOf
+  simp only [hs, hp, Bool.false_eq_true, if_false, he']
+  split
+  · left; rfl
+  · split
+    · left; rfl
+    · right; exact ⟨_, _, rfl, rfl⟩
+
 /-! ### prepared runs: what the statement is given (C01 / C02) -/
 
 theorem prepare_files (F : Facts) (tables : List Table) (stmt : Stmt) (fromTable : String) (join : Option LJoin)
